@@ -331,4 +331,40 @@ theorem guard_loud (fs : Features) (f : String) (h : fs.lookup f = some false) :
     optionGuard fs f true = .raisesNotImplemented := by
   simp [optionGuard, raiseForFeature, h]
 
+/-- **Independent guards.**  In a sequence of independent guards over known features, a given
+    option whose feature is not opted out makes the call raise NotImplementedError — wherever
+    it stands in the sequence and whatever the other options and their opt-outs are. -/
+theorem guardSeq_loud (fs : Features) (gs : List (String × Bool)) (f : String)
+    (hknown : ∀ g ∈ gs, (fs.lookup g.1).isSome = true)
+    (hmem : (f, true) ∈ gs) (hf : fs.lookup f = some false) :
+    guardSeq fs gs = .raisesNotImplemented := by
+  induction gs with
+  | nil => simp at hmem
+  | cons g rest ih =>
+    obtain ⟨n, given⟩ := g
+    have hn := hknown (n, given) (by simp)
+    obtain ⟨v, hv⟩ := Option.isSome_iff_exists.mp hn
+    simp only [guardSeq]
+    cases given with
+    | false =>
+      have hne : (f, true) ≠ (n, false) := by simp
+      have hm : (f, true) ∈ rest := by
+        rcases List.mem_cons.mp hmem with h | h
+        · exact absurd h hne
+        · exact h
+      simp only [optionGuard, Bool.false_eq_true, if_false]
+      exact ih (fun g hg => hknown g (List.mem_cons_of_mem _ hg)) hm
+    | true =>
+      cases v with
+      | false => simp [optionGuard, raiseForFeature, hv]
+      | true =>
+        have hnf : f ≠ n := by
+          intro h; subst h; rw [hf] at hv; cases hv
+        have hm : (f, true) ∈ rest := by
+          rcases List.mem_cons.mp hmem with h | h
+          · exact absurd (congrArg Prod.fst h) hnf
+          · exact h
+        simp only [optionGuard, if_true, raiseForFeature, hv]
+        exact ih (fun g hg => hknown g (List.mem_cons_of_mem _ hg)) hm
+
 end MongoModel.Proofs.C20
